@@ -176,6 +176,16 @@ fn casts_shapes() {
     let l3 = LineSegment3 { start: Vec3::of(&a[..3]), end: Vec3::of(&a[3..]) }.as_::<S>();
     eqv("LineSegment3::as_", &[l3.start.ent(), l3.end.ent()].concat(), &a.iter().map(|x| c(*x)).collect::<Vec<_>>());
 }
+/// matrix element casts: `as_` converts element (i,j) to element (i,j), in both layouts and all sizes
+fn casts_mats() {
+    macro_rules! one { ($M:ident) => {{
+        let n = <$M<S> as ML<S>>::N;
+        let a: Vec<Vec<S>> = (0..n).map(|i| symv(&format!("e{}", i), n)).collect();
+        let got = <$M<S> as ML<S>>::of(&a).as_::<S>().ent();
+        eqv(concat!(stringify!($M), "::as_"), &got.concat(), &a.concat().iter().map(|x| app("as_", &[*x])).collect::<Vec<_>>());
+    }} }
+    one!(Rows2); one!(Cols2); one!(Rows3); one!(Cols3); one!(Rows4); one!(Cols4);
+}
 fn mint_conv() {
     let a = symv("a", 4);
     let (v2, v3, v4) = (Vec2::of(&a[..2]), Vec3::of(&a[..3]), Vec4::of(&a));
@@ -234,6 +244,7 @@ pub fn list() -> Vec<Entry> {
     mats!(approx_rows2 "Rows2", approx_cols2 "Cols2", approx_rows3 "Rows3", approx_cols3 "Cols3", approx_rows4 "Rows4", approx_cols4 "Cols4");
     for w in 0..3usize { v.push((format!("c20/approx_quat/{}", ["abs_diff_eq", "relative_eq", "ulps_eq"][w]), "C20", 0, vec!["AbsDiffEq/RelativeEq/UlpsEq for Quaternion"], Box::new(move || approx_quat(w)))); }
     v.push(("c20/casts_shapes".into(), "C20", 0, vec!["Rect::as_", "Rect3::as_", "Aabr::as_", "Aabb::as_", "LineSegment*::as_"], Box::new(casts_shapes)));
+    v.push(("c20/casts_mats".into(), "C20", 0, vec!["Mat2::as_", "Mat3::as_", "Mat4::as_"], Box::new(casts_mats)));
     v.push(("c20/mint/vectors".into(), "C20", 0, vec!["mint::Vector*/Point* <-> Vec*", "mint::Quaternion <-> Quaternion"], Box::new(mint_conv)));
     v.push(("c20/mint/mat2".into(), "C20", 0, vec!["mint::RowMatrix2/ColumnMatrix2 <-> Mat2"], Box::new(mint_mat2)));
     v.push(("c20/mint/mat3".into(), "C20", 0, vec!["mint::RowMatrix3/ColumnMatrix3 <-> Mat3"], Box::new(mint_mat3)));
